@@ -4,7 +4,7 @@ import math
 import numpy as np
 
 RAW = 0xFFFFFFFF
-STRUCTURAL = ['Linear', 'Polynomial', 'Table', 'Add', 'Subtract']
+STRUCTURAL = ['Linear', 'Polynomial', 'Table', 'Add', 'Subtract', 'AdvancedAPI']
 
 
 def P(i, suffix):
@@ -112,6 +112,10 @@ def gen_graph(rng, depth=None, kinds=STRUCTURAL):
             # 'scaled' values are the interpolation inputs, 'pre-scaled' the outputs
             sc = dict(kind=k, scaled=xs, pre=ys, src=pick())
             if sc['src'] == RAW and rng.random() < 0.3:
+                sc['src'] = None
+        elif k == 'AdvancedAPI':
+            sc = dict(kind=k, src=pick())          # passes its input through
+            if sc['src'] == RAW and rng.random() < 0.5:
                 sc['src'] = None
         else:
             sc = dict(kind=k, left=pick(), right=pick())
